@@ -247,10 +247,10 @@ func (g *gen) keyType() reflect.Type {
 	case x >= 30 && x < 50 && g.p.allowPtrKey:
 		g.feat("soft:pointer-key")
 		return mon.PickOne(g.r, []reflect.Type{rt[*int](), rt[*string](), rt[*KeyA](), rt[*NInt](), rt[**int](), rt[*float64]()})
-	case x >= 50 && x < 65 && g.p.allowTagKey:
+	case x >= 50 && x < 80 && g.p.allowTagKey:
 		g.feat("tagged-key-struct")
 		return rt[TagKey]()
-	case x >= 65 && x < 72 && g.p.allowArrays:
+	case x >= 80 && x < 87 && g.p.allowArrays:
 		g.feat("soft:array")
 		return mon.PickOne(g.r, []reflect.Type{rt[[2]int](), rt[[1]string](), rt[Arr3]()})
 	}
@@ -685,8 +685,13 @@ func (g *gen) mapv(v reflect.Value, t reflect.Type, depth int) {
 	}
 	n := g.length(depth)
 	m := reflect.MakeMapWithSize(t, n)
+	// keys that differ only in fields their json tags hide or merge
+	smallKeys := t.Key().Kind() == reflect.Struct && hasJSONTags(t.Key()) && g.r.Prob(0.6)
 	for i := 0; i < n; i++ {
 		k := g.key(t.Key())
+		if smallKeys {
+			k = g.small(t.Key())
+		}
 		m.SetMapIndex(k, g.value(t.Elem(), depth+1))
 	}
 	v.Set(m)
@@ -750,6 +755,12 @@ func (g *gen) small(t reflect.Type) reflect.Value {
 		v.SetFloat([]float64{0, 1, 2, 0.5}[g.r.Intn(4)])
 	case reflect.String:
 		v.SetString(mon.PickOne(g.r, []string{"", "0", "1", "1.0", "a", "true", "null", "2"}))
+	case reflect.Struct:
+		for i := 0; i < t.NumField(); i++ {
+			if t.Field(i).PkgPath == "" {
+				v.Field(i).Set(g.small(t.Field(i).Type))
+			}
+		}
 	default:
 		save := g.p.allowOutside
 		g.p.allowOutside = false
